@@ -50,3 +50,100 @@ Theorem C09_beyond_permitted_rejected :
     inflight s' = inflight s /\ circ s' = circ s.
 Proof. exact beyond_permitted_rejected. Qed.
 Print Assumptions C09_beyond_permitted_rejected.
+
+(* ---- statements over what the trace shows (no ghost counters) ---- *)
+
+(* One half-open phase, observed from outside: take any reachable state in which the breaker is
+   not half-open and any continuation after every event of which it is half-open.  The inner
+   calls started ([nstarts] = sum of the trace's `started` fields) exceed
+   permitted_calls_in_half_open by at most the number of events that ended a call WITHOUT an
+   outcome ([ncancel]: Drop events and polls with result code 5 = panic).  Such a trial hands
+   its slot back (a cancelled trial must not wedge the breaker half-open), so "at most
+   permitted trial calls reach the wrapped service" is true of trial calls that deliver an
+   outcome or are still awaited, not of all trial calls ever started in the phase: see
+   ex_phase_cancel in Proof/Circuit.v (permitted = 1, three starts in one phase). *)
+Theorem C09_phase_trace :
+  forall (cf : cfg) (evs0 evs : list ev),
+    1 <= permitted cf ->
+    let s := fold_left (step_st cf) evs0 init in
+    state (circ s) <> HalfOpen -> stays_ho cf s evs ->
+    nstarts cf s evs <= permitted cf + ncancel cf s evs.
+Proof. exact phase_trace. Qed.
+Print Assumptions C09_phase_trace.
+
+(* under the property's own quantifier (every trial call runs to an outcome) the bound is on
+   ALL inner calls started in the phase *)
+Theorem C09_phase_trace_no_cancel :
+  forall (cf : cfg) (evs0 evs : list ev),
+    1 <= permitted cf ->
+    let s := fold_left (step_st cf) evs0 init in
+    state (circ s) <> HalfOpen -> stays_ho cf s evs -> ncancel cf s evs = 0 ->
+    nstarts cf s evs <= permitted cf.
+Proof. exact phase_trace_no_cancel. Qed.
+Print Assumptions C09_phase_trace_no_cancel.
+
+(* The independent trace monitor of gen/c09.py, transliterated to Gallina ([c09_step]: per
+   half-open phase S = trial calls started, C = trial calls of the phase that ended without an
+   outcome, M = callers whose trial is in flight; alarm (B) if S - C > permitted after an event
+   of the phase, alarm (R) if a caller polled for the first time when S - C >= permitted is
+   not rejected at once), accepts EVERY run of the model from its initial state. *)
+Theorem C09_monitor_accepts :
+  forall (cf : cfg) (evs : list ev),
+    1 <= permitted cf -> c09_run cf c09_init init evs = true.
+Proof. exact monitor_accepts. Qed.
+Print Assumptions C09_monitor_accepts.
+
+(* At every instant: any set of distinct callers whose inner call is in flight under a trial
+   guard of the breaker's current phase has at most [admitted] elements, and at most
+   permitted_calls_in_half_open while the breaker is half-open. *)
+Theorem C09_trials_in_flight :
+  forall (cf : cfg) (evs : list ev),
+    1 <= permitted cf ->
+    Forall (fun s => forall l, NoDup l -> (forall j, In j l -> holds_trial s j) ->
+                       Z.of_nat (length l) <= admitted (circ s) /\
+                       (state (circ s) = HalfOpen -> Z.of_nat (length l) <= permitted cf))
+           (states (step_st cf) init evs).
+Proof. exact trials_in_flight. Qed.
+Print Assumptions C09_trials_in_flight.
+
+(* ... so the guard's saturating subtraction on hand-back never saturates (the bound above is
+   not helped by Z.max 0) *)
+Theorem C09_handback_never_saturates :
+  forall (cf : cfg) (evs : list ev),
+    Forall (fun s => forall j, holds_trial s j -> 1 <= admitted (circ s))
+           (states (step_st cf) init evs).
+Proof. exact handback_exact. Qed.
+Print Assumptions C09_handback_never_saturates.
+
+(* the ghost start counter counts exactly the observable starts of the phase, whatever the
+   polled caller's gate holds (strengthens C09_trial_start_counted: no gate hypothesis) ... *)
+Theorem C09_starts_counted_in_phase :
+  forall (cf : cfg) (s : st) (e : ev),
+    state (circ s) = HalfOpen -> state (circ (step_st cf s e)) = HalfOpen ->
+    gstarts (step_st cf s e) = gstarts s + b2z (started (snd (step cf s e))).
+Proof. exact gstarts_step. Qed.
+Print Assumptions C09_starts_counted_in_phase.
+
+(* ... and the breaker becomes half-open in exactly one way: a poll, while it is open, that
+   starts the first trial call of the new phase *)
+Theorem C09_half_open_entered_by_first_trial :
+  forall (cf : cfg) (s : st) (e : ev),
+    state (circ s) <> HalfOpen -> state (circ (step_st cf s e)) = HalfOpen ->
+    gstarts (step_st cf s e) = 1 /\ started (snd (step cf s e)) = true /\
+    (exists i, e = Poll i) /\ state (circ s) = Open /\
+    (r (snd (step cf s e)) <> 5 -> ghand (step_st cf s e) = 0) /\
+    ghand (step_st cf s e) <= 1.
+Proof. exact gstarts_enter. Qed.
+Print Assumptions C09_half_open_entered_by_first_trial.
+
+(* The LITERAL bound (all trial calls started in one phase <= permitted) is false as soon as
+   trial calls may end without an outcome — even with no cancellation by any caller: panicking
+   trials hand their slots back.  Witness: permitted = 1, three trial calls in one phase. *)
+Theorem C09_literal_bound_refuted :
+  exists (cf : cfg) (evs0 evs : list ev),
+    1 <= permitted cf /\
+    let s := fold_left (step_st cf) evs0 init in
+    state (circ s) <> HalfOpen /\ stays_ho cf s evs /\ (forall i, ~ In (Drop i) evs) /\
+    permitted cf < nstarts cf s evs.
+Proof. exact literal_bound_refuted. Qed.
+Print Assumptions C09_literal_bound_refuted.
